@@ -185,6 +185,8 @@ class Tr:
                 if o.ty == 'ZList' and any(c.startswith('Nat.eqb (length %s) ' % o.text) and c.split()[-1] != '0' for c in g):
                     return V('(nth 0 %s 0%%Z)' % o.text, 'Z')
                 bad(n, '[0] of %s (unguarded?)' % o.ty)
+            if isinstance(n.slice, ast.Constant):
+                bad(n, 'constant subscript other than [0]')
             k = self.ev(n.slice, env, g)
             if o.ty == 'Map' and k.ty == 'Key' and k.prov is not ALL and o.text in k.prov:
                 return V('(mget %s %s)' % (o.text, k.text), 'Row')
@@ -563,7 +565,7 @@ def main(emit):
         except (Unsupported, KeyError, ValueError, IndexError, AttributeError, TypeError, OSError, SyntaxError) as e:
             msg = '%s: %s: %s' % (name, type(e).__name__, e)
             errors.append(msg)
-            out.append('(* NOT TRANSLATABLE - %s *)\nDefinition %s : unit := tt.\n' % (msg.replace('*)', '* )').replace('(*', '( *'), name))
+            out.append('(* NOT TRANSLATABLE - %s *)\nDefinition %s : unit := tt.\n' % (msg.replace('*)', '* )').replace('(*', '( *').replace('"', "'"), name))
     emit('MsgFormatSrc.v', '\n'.join(out))
     if errors:
         raise SystemExit('gen_msgformat_src: the source left the supported subset (tie broken):\n  ' + '\n  '.join(errors))
